@@ -6,7 +6,7 @@
 //@ rewrite RD "for word in document_vocabulary {" => "for t in 0..document_vocabulary.len() { let word = document_vocabulary[t];   /* for word in document_vocabulary (a HashSet: distinct n-grams, any order) */"
 //@ rewrite RD "if let Some((_, freq)) = vocabulary.get_mut(&word) {" => "if vocabulary.contains_abs(&word) {   /* if let Some((_, freq)) = vocabulary.get_mut(&word) */"
 //@ rewrite RD "*freq += 1;" => "vocabulary.incr_df_abs(&word);   /* *freq += 1 */"
-//@ rewrite RD "vocabulary.insert(word, (len, 1));" => "vocabulary.insert_abs(word, (len, 1));"
+//@ rewrite RD "vocabulary.insert(" => "vocabulary.insert_abs("
 //@ insert RD before-brace "for t in 0..document_vocabulary.len() " : invariant distinct(document_vocabulary@), vocabulary.wf(), vocabulary.n@ <= v0.n@ + t, v0.n@ + document_vocabulary@.len() <= usize::MAX / 2, forall|w: int| #![trigger vocabulary.df@.contains_key(w)] (vocabulary.df@.contains_key(w) <==> v0.df@.contains_key(w) || seen(document_vocabulary@, t as int, w)), forall|w: int| #![trigger vocabulary.df@[w]] vocabulary.df@.contains_key(w) ==> vocabulary.df@[w] == (if v0.df@.contains_key(w) { v0.df@[w] } else { 0 }) + (if seen(document_vocabulary@, t as int, w) { 1int } else { 0int }), forall|w: int| #![trigger vocabulary.index@[w]] v0.df@.contains_key(w) ==> vocabulary.index@[w] == v0.index@[w],
 //@ insert RD after "for t in 0..document_vocabulary.len() " : proof { lemma_seen_step(document_vocabulary@, t as int); }
 //@ expect-fail vacuity_guard_read
